@@ -44,7 +44,14 @@ Part B  `schedules`  real `dassh.__main__.run_dassh` on inputs with 1..4 time
 Every piece of dassh code runs in a forked child (or subprocess) of a worker
 that itself never executes dassh: each reference, each sequence, each schedule
 starts from a pristine interpreter, so module-level state cannot leak from one
-case (or from the reference) into another.
+case (or from the reference) into another.  A worker keeps the references it
+has obtained (they are deterministic products of a pristine process); their
+work is not counted in states / transitions.
+
+Counting: states = input snapshots compared (one per operation + the parsed
+one) + axial steps of the sweeps of the sequence; per schedule: time-point
+directories compared.  transitions = operations / time-point tasks executed.
+traces = sequences resp. schedules executed completely and compared.
 
 Flat scenario fields for known-finding matching: part, family, history
 ('c0>sweep>c1'), depth | ntp, mode, workers, orderstr; on a violation also
@@ -724,10 +731,8 @@ def run_sequence(c):
         _unwrap(res, c, r, 'operation sequence (harness level)', 'unexpected-exception')
         r['outcome'] = 'EXC'
         return r
-    out = res[1]
-    out['states'] += 2 * (refs[0]['steps'] + 1)
-    out['transitions'] += 6
-    return out
+    # (the work of the reference runs is not counted: a worker reuses them)
+    return res[1]
 
 
 # ======================================================================
@@ -947,7 +952,7 @@ def run_schedule(c):
         if mode == 'fresh2':
             a = _process_run(dict(c, mode='process'))
             b = _process_run(dict(c, mode='process'))
-            r['transitions'] += 2 * ntp
+            r['transitions'] += 2 * ntp      # two processes x ntp time points
             for o in (a, b):
                 if o['fail']:
                     r['violations'].append(violation(
@@ -988,7 +993,7 @@ def run_schedule(c):
             if out is None:
                 r['outcome'] = 'EXC'
                 return r
-    r['transitions'] += 2 * ntp
+    r['transitions'] += ntp if out['done'] is None else len(out['done'])
     if mode == 'inproc':
         ex['pool_replaced_and_used'] = 1 if out['pool_used'] else 0
     failed = out['fail'] is not None
@@ -1024,7 +1029,7 @@ def run_schedule(c):
         r['violations'].append(violation(
             'directory-unexpected', c, '%s: output outside the per-time-point directories: %s'
             % (desc, out['rest'][:6]), out['rest'][:6], [], None, 'timestep-dir'))
-    r['traces'] = 1 + ntp
+    r['traces'] = 1
     r['outcome'] = 'ok' if not r['violations'] else \
         'violated:' + '+'.join(sorted({v['kind'] for v in r['violations']}))
     r['info'] = {'files_per_time_point': len(refs[0]),
